@@ -287,9 +287,12 @@ func (s *Scope) Eval(e Expr) Term {
 				}
 			}
 		}
-		x.noFacts++
-		body := c.EvalBool(e.Body)
-		x.noFacts--
+		var body Term
+		func() {
+			x.noFacts++
+			defer func() { x.noFacts-- }()
+			body = c.EvalBool(e.Body)
+		}()
 		q := "forall"
 		if e.Forall {
 			body = Implies(And(guards...), body)
@@ -302,9 +305,11 @@ func (s *Scope) Eval(e Expr) Term {
 			for _, tg := range e.Triggers {
 				var ts []string
 				for _, te := range tg {
-					x.noFacts++
-					ts = append(ts, c.Eval(te).S)
-					x.noFacts--
+					func() {
+						x.noFacts++
+						defer func() { x.noFacts-- }()
+						ts = append(ts, c.Eval(te).S)
+					}()
 				}
 				pats = append(pats, ":pattern ("+strings.Join(ts, " ")+")")
 			}
